@@ -71,6 +71,23 @@ func simMustDisq(in *simIn) []int {
 				if simBadAnswerKinds[b.Answers[strconv.Itoa(p)]] {
 					must = true
 				}
+				// "wrongly answered": the honest participant p will complain, and the dealer's FIRST
+				// answer for p is wrong.  Answers broadcast in phase 0 precede the scripted reply to
+				// the complaint in the dealer's own broadcast order (which every receiver preserves),
+				// so if every phase-0 answer for p is a wrong one, the first answer is wrong whatever
+				// the shuffle.
+				n0, bad0 := 0, 0
+				for _, u := range b.Unsol {
+					if u.Phase == 0 && u.Complainer == p {
+						n0++
+						if u.Kind != "ok" {
+							bad0++
+						}
+					}
+				}
+				if n0 > 0 && bad0 == n0 {
+					must = true
+				}
 			}
 		}
 		for j := range in.Byz {
@@ -256,6 +273,26 @@ func simGen(tier string, r *rand.Rand, prop string) []Case {
 					in.Hint = pick(r, []string{"answers-first", "", "share-first", "vector-last"})
 					cs = append(cs, simFinish("unsolicited-"+proto, in))
 				}
+			}
+		}
+	}
+	// ---- answer before vector: a share that is malformed in format makes the victim complain before
+	// it has the vector; the dealer's answer (right or wrong) is broadcast and delivered before its
+	// vector, so the answer can only be checked when the vector finally arrives ----
+	for _, proto := range protos {
+		for _, sk := range []string{"empty", "wrongtag", "badlen", "zero", "ger"} {
+			for _, uk := range []string{"ok", "bad", "zero", "badlen"} {
+				if !thorough && (len(sk)+len(uk))%2 == 1 && uk != "ok" && uk != "bad" {
+					continue
+				}
+				n, t := conf()
+				b := r.IntN(n)
+				in := simBase(r, proto, n, t, b, []int{b})
+				victim := in.Honest[r.IntN(len(in.Honest))]
+				in.Byz[0].Shares[strconv.Itoa(victim)] = sk
+				in.Byz[0].Unsol = []simUns{{Phase: 0, Complainer: victim, Kind: uk}}
+				in.Hint = "share-answer-vector"
+				cs = append(cs, simFinish("answer-before-vector-"+proto, in))
 			}
 		}
 	}
